@@ -205,7 +205,10 @@ SEEDS = ["a &#32; b", "<pre> a  b <b> c  d </b>\n\n</pre> e  f ", "<textarea> a 
          "<script> a  b </script><style> c  d </style><xmp> e  f </xmp>", "<pre><pre><pre> x  y </pre> z  w </pre> </pre> q  r",
          "<div><pre> a </div>  b  c", "\x0b  \xa0     　  x", "<svg><style> a  b </style><title> c  d </title></svg>",
          "<p>a \t\n\x0c\r b</p>", "<title> a  b </title>", "<noscript> a  b </noscript>", "<iframe> a  b </iframe>",
-         " ", "  ", "<br>  <br>  ", "<pre>\n\n a</pre>", "<listing>  a  b</listing>", "<plaintext>  a  b"]
+         " ", "  ", "<br>  <br>  ", "<pre>\n\n a</pre>", "<listing>  a  b</listing>", "<plaintext>  a  b",
+         # foreign elements named like HTML void elements inside pre: the stream must balance, preservation ends at </pre>
+         ] + ["<pre><%s><%s/><%s>t</%s></%s> a  b </pre>x \t\n y  z" % (r, nm, nm, nm, r)
+              for r in ("svg", "math") for nm in ("link", "source", "param", "base", "area", "col", "input", "track", "wbr")]
 
 
 def shard(ctx):
